@@ -367,6 +367,23 @@ Proof.
     apply Src_update_nth. intros l0. left. repeat split.
 Qed.
 
+Lemma Src_blocklist c now i s : Src (leases s) (leases (blocklist c now i s)).
+Proof.
+  unfold blocklist. destruct (nth_error (leases s) i) as [l|] eqn:E; [|apply Src_refl]. cbn [leases].
+  apply Src_update_nth. intros l0. right. apply stable1_nil. reflexivity.
+Qed.
+
+Lemma Src_allocate c now busy mac : forall fuel s,
+  Src (leases s) (leases (fst (allocate fuel c now busy mac s))).
+Proof.
+  induction fuel as [|f IH]; intros s; cbn [allocate]; [apply Src_refl|].
+  pose proof (Src_reserve c now mac s) as R.
+  destruct (reserve c now mac s) as [s1 r]; cbn [fst] in *.
+  destruct r; auto.
+  destruct (mem_ip (ip_at s1 i) busy); auto.
+  eapply Src_trans; [exact R|]. eapply Src_trans; [apply Src_blocklist|apply IH].
+Qed.
+
 Lemma Src_commit c now i host s : Src (leases s) (leases (commit c now i host s)).
 Proof.
   unfold commit. destruct (nth_error (leases s) i) as [l|] eqn:E; [|apply Src_refl]. cbn [leases].
@@ -394,7 +411,8 @@ Proof.
   assert (G : forall d s, (forall l, In l (leases s) -> stable1 l) ->
                           forall l, In l (leases (fold_left (load_step c) d s)) -> stable1 l).
   { clear d. induction d as [|a d IH]; intros s H; cbn; auto. apply IH.
-    unfold load_step. destruct (add_lease c (reload_lease a) s) as [s'|] eqn:Ea; auto.
+    unfold load_step. destruct (valid_mac (l_mac a)); auto.
+    destruct (add_lease c (reload_lease a) s) as [s'|] eqn:Ea; auto.
     apply add_lease_some in Ea as (-> & _). intros l Hl. apply in_app_iff in Hl as [?|[<-|[]]]; auto.
     unfold reload_lease. destruct (negb (l_static a) && negb (is_nil (l_host a))) eqn:Ec.
     - intros _ Hh. cbn in *. eapply vhfc_idem; eauto.
@@ -411,14 +429,14 @@ Qed.
 Lemma stable1_static ip mac h e : stable1 (Lease ip mac h true e).
 Proof. intros H; discriminate. Qed.
 
-Theorem step_names c s now o :
-  NamesStable (leases s) -> NamesStable (leases (fst (step c s now o))).
+Theorem step_names c s now busy o :
+  NamesStable (leases s) -> NamesStable (leases (fst (step c s now busy o))).
 Proof.
   intros H. destruct o; cbn [step fst]; auto.
   - (* discover *)
     unfold discover. destruct (find_lease mac (leases s)) as [[? ?]|]; cbn; auto.
-    pose proof (Src_reserve c now mac s) as R.
-    destruct (reserve c now mac s) as [s' r]; cbn in *.
+    pose proof (Src_allocate c now busy mac (alloc_fuel c s) s) as R.
+    destruct (allocate _ c now busy mac s) as [s' r]; cbn in *.
     destruct r; cbn; eapply NS_src; eauto.
   - (* request *)
     unfold request. destruct (request_lease c mac sid reqip ciaddr s) as [r|[i l]]; cbn; auto.
@@ -429,8 +447,8 @@ Proof.
     destruct (rm_dynamic_lease c (l_mac old) (l_ip old) (l_host old) s) as [s1 e]; cbn in *.
     assert (H1 : NamesStable (leases s1)) by (eapply NS_src; eauto).
     destruct e; cbn; auto.
-    pose proof (Src_reserve c now mac s1) as R2.
-    destruct (reserve c now mac s1) as [s2 r]; cbn in *.
+    pose proof (Src_allocate c now busy mac (alloc_fuel c s1) s1) as R2.
+    destruct (allocate _ c now busy mac s1) as [s2 r]; cbn in *.
     assert (H2 : NamesStable (leases s2)) by (eapply NS_src; eauto).
     destruct r; cbn; auto. eapply NS_src; eauto. apply Src_commit.
   - (* release *)
@@ -440,6 +458,7 @@ Proof.
     destruct e; cbn; eapply NS_src; eauto.
   - (* static add *)
     unfold static_add. destruct (ip =? c_gw c); cbn; auto.
+    destruct (valid_mac mac); cbn; auto.
     destruct (if is_nil host then Some [] else _) as [h|]; cbn; auto.
     pose proof (Src_rm_dynamic c mac ip h s) as R1.
     destruct (rm_dynamic_lease c mac ip h s) as [s1 e]; cbn in *.
@@ -455,7 +474,8 @@ Proof.
     destruct (add_lease c _ s1) as [s2|] eqn:Ea; cbn; auto.
     eapply NS_src; eauto. eapply Src_add; eauto. apply stable1_static.
   - (* static remove *)
-    unfold static_remove. destruct (rm_lease c ip mac host s) as [s1|] eqn:Er; cbn; auto.
+    unfold static_remove. destruct (valid_mac mac); cbn; auto.
+    destruct (rm_lease c ip mac host s) as [s1|] eqn:Er; cbn; auto.
     eapply NS_src; eauto using Src_rm_lease.
   - (* restart *)
     apply NS_load.
@@ -464,14 +484,14 @@ Qed.
 Theorem names_stable_reachable c h : NamesStable (leases (run c h empty_state)).
 Proof.
   assert (G : forall s, NamesStable (leases s) -> NamesStable (leases (run c h s))).
-  { unfold run. induction h as [|[now o] h IH]; intros s H; cbn; auto. apply IH, step_names; auto. }
+  { unfold run. induction h as [|[[now busy] o] h IH]; intros s H; cbn; auto. apply IH, step_names; auto. }
   apply G. intros l [].
 Qed.
 
 (** Persistence, full statement. *)
 Theorem persistence_full : persistence_statement.
 Proof.
-  intros c h s s'. apply persistence.
-  - apply full_inv_reachable.
+  intros c h Hh s s'. apply persistence.
+  - apply full_inv_reachable; auto.
   - apply names_stable_reachable.
 Qed.
